@@ -1,4 +1,5 @@
 import BV.Model.FFI
+import BV.Model.FFIStream
 import BV.Drive.Util
 /-
 Line protocol of the `ffi` engine (leading token `ffi` stripped by `Drive.lean`).
@@ -10,6 +11,8 @@ Line protocol of the `ffi` engine (leading token `ffi` stripped by `Drive.lean`)
                    → <ret>:<availIn>:<nextIn|n>:<availOut>:<nextOut|n>:<*total_out>
      take_output   t:<size>:<pending bytes hex>  → <bytes hex>:<size after>:<#bytes still pending>
   M <desired>           dispatch of BrotliEncoderCompressMulti → reject | single | multi:<threads>
+  P <init 0|1> <id> <v> BrotliEncoderSetParameter(id, v) on an instance that has (1) / has not (0) been used yet
+                        (default parameters otherwise) → 0 | 1   (`ffiSetParameter` of BV/Model/FFIStream.lean)
   O <desired> <0|1>     allocator-opaque index of the 16 slots (1 = caller passed an array) → i0,i1,…,i15 | panic
 Addresses are numbers; `n` = null.
 -/
@@ -48,6 +51,12 @@ def handleCall (tok : String) : String :=
 def handle (args : List String) : String :=
   match args with
   | "S" :: calls => " ".intercalate (calls.map handleCall)
+  | ["P", i, id, v] =>
+    match id.toNat?, v.toNat? with
+    | some id, some v =>
+      let s : BV.Stream.St := { BV.Stream.St.new with isInitialized := (i = "1") }
+      toString (ffiSetParameter s id v).2
+    | _, _ => "bad-op"
   | ["M", d] =>
     match d.toNat? with
     | some d => match multiDispatch d with
